@@ -457,12 +457,16 @@ def run_histories(ctx, rep, histories, variants, with_model=True):
                                      {'seed': seed, 'history': history, 'variants': variants, 'workdir': str(wd)}, timeout=1500)
         shutil.rmtree(wd, ignore_errors=True)
         if rc != 0 or not out.strip():
-            raise RuntimeError(f'C18 worker failed rc={rc}: {err[-1200:]}')
+            return {'error': f'worker rc={rc}: {err[-600:]}'}
         return json.loads(out)
     with ThreadPoolExecutor(max_workers=8) as ex:
         results = list(ex.map(one, histories))
     coq_jobs, meta = [], {}
     for (hid, seed, history), result in zip(histories, results):
+        if 'error' in result:
+            rep.disagreements.append({'what': 'the history could not be run on the implementation: ' + result['error'],
+                                      'replay': {'history_id': hid, 'history': history}})
+            continue
         jobs = check_history(rep, hid, history, result, variants, with_model)
         for v, (text, steps_idx, created) in jobs.items():
             name = f'c18_{hid}_{v}'
